@@ -695,8 +695,26 @@ impl<'a, R: CharRead> Lexer<'a, R> {
 
         if c == '_' {
             self.skip_char(c);
-            self.scan_for_layout()?;
-            c = self.lookahead_char()?;
+
+            // a digit group separator must be followed (after optional layout) by a
+            // digit: running into the end of the text here is a malformed number, not
+            // a complete one (number_chars(N, "1_") must not succeed).
+            let at_end = |e: ParserError, this: &Self| {
+                if e.is_unexpected_eof() {
+                    this.parse_big_int_error()
+                } else {
+                    e
+                }
+            };
+
+            if let Err(e) = self.scan_for_layout() {
+                return Err(at_end(e, self));
+            }
+
+            c = match self.lookahead_char() {
+                Ok(c) => c,
+                Err(e) => return Err(at_end(e, self)),
+            };
 
             if decimal_digit_char!(c) {
                 Ok(c)
